@@ -36,6 +36,9 @@ func loadURL(listURL string) (pemBlocks map[string][]byte, err error) {
 			return nil, err
 		}
 		defer resp.Body.Close()
+		if resp.StatusCode != http.StatusOK {
+			return nil, fmt.Errorf("%s: %s", url, resp.Status)
+		}
 		return io.ReadAll(resp.Body)
 	}
 
